@@ -8,7 +8,9 @@ World   = 1 or 2 real ``ComponentRegistry`` objects on private ``Library`` insta
           A library is empty or pre-loaded with the seven built-in tags, and unprotected,
           protected with ``mark_protected_tags(lib)`` (the built-in list) or protected with a
           custom list.
-Ops     = register(n, C) / unregister(n) / get(n) / all() / clear() per registry.
+Ops     = register(n, C) / unregister(n) / get(n) / all() / clear() per registry; four single-registry
+          configurations are explored a second time with every registration going through the
+          module-level decorator `@register(n, registry=...)` (must return the class unchanged).
 Search  = BFS to a fixpoint (every history of every length over the alphabet) with
           canonical-state merging, plus all unmerged sequences up to a depth as a check of
           the canonicalisation.
@@ -126,7 +128,8 @@ def cfg_name(cfg) -> str:
     topo = cfg["topo"]
     fm = "+".join(r["fmt"] for r in cfg["regs"])
     lb = "+".join(("pre" if l["preload"] else "empty") + "/" + ("none" if l["protect"] is None else l["protect"] if isinstance(l["protect"], str) else "custom:" + ",".join(l["protect"])) for l in cfg["libs"])
-    return f"{topo}/{fm}/{lb}/n={','.join(cfg['names'])}/c={cfg['nclasses']}"
+    route = "/via-decorator" if cfg.get("route") == "decorator" else ""
+    return f"{topo}{route}/{fm}/{lb}/n={','.join(cfg['names'])}/c={cfg['nclasses']}"
 
 
 def names_for(fmts):
@@ -150,6 +153,9 @@ def single_configs(thorough: bool):
                     "names": names,
                     "nclasses": 3,
                 })
+                if preload and protect in (None, "builtin") and fmt != "prefix":
+                    # the same world driven through the module-level decorator `@register(name, registry=...)`
+                    out.append(dict(out[-1], route="decorator"))
     return out
 
 
@@ -226,6 +232,19 @@ def make_world(cfg):
     return lambda: World(cfg)
 
 
+def _register(w, reg, name, cls):
+    """registry.register(name, cls), or - configurations with route=decorator - the documented module-level
+    decorator `@register(name, registry=reg)`, which must register exactly like the method and hand the class back"""
+    if w.cfg.get("route") == "decorator":
+        from django_components import register
+
+        ret = register(name, registry=reg)(cls)
+        if ret is not cls:
+            raise AssertionError(f"@register returned {ret!r} instead of the decorated class")
+        return None
+    return reg.register(name, cls)
+
+
 def _call(fn, *a):
     try:
         return ("ok", fn(*a))
@@ -257,7 +276,7 @@ def _apply_unchecked(w: World, op):
     reg, model = w.regs[r], w.model[r]
     try:
         if kind == "register":
-            reg.register(op[2], e.classes[op[3]])
+            _register(w, reg, op[2], e.classes[op[3]])
             model[op[2]] = e.classes[op[3]]
         elif kind == "unregister":
             reg.unregister(op[2])
@@ -289,7 +308,7 @@ def _step_checked(w: World, op):
         else:
             exp = ("ok", None)
             model[name] = cls
-        got = _call(reg.register, name, cls)
+        got = _call(_register, w, reg, name, cls)
     elif kind == "unregister":
         name = op[2]
         if name in model:
